@@ -106,7 +106,7 @@ impl OutputFormat for IceDraw {
         if buf.get_font_dimensions() != Size::new(8, 16) {
             return Err(SavingError::Only8x16FontsSupported.into());
         }
-        if let Some(font) = buf.get_font(fonts[0]) {
+        if let Some(font) = buf.get_font(*fonts.first().unwrap_or(&0)) {
             result.extend(font.convert_to_u8_data());
         } else {
             return Err(SavingError::NoFontFound.into());
